@@ -1,10 +1,24 @@
 #!/bin/bash
-# usage: tryseed.sh <patch> <property> [tier]   -- applies the patch to /repo, runs the check, reverts
-P=$1; PROP=$2; TIER=${3:-quick}
-cd /repo || exit 2
-if ! git diff --quiet; then echo "/repo has local changes; refusing"; exit 2; fi
-git apply "$P" || { echo "patch does not apply"; exit 2; }
+# usage: tryseed.sh <patch> <property> [tier]
+# Runs the property's check against a scratch worktree of /repo HEAD with the patch applied
+# (VERIF_REPO), so that /repo itself stays untouched and other checks can run meanwhile; the
+# worktree is removed afterwards. Evidence and replay files of such runs go to a scratch directory.
+# TRYSEED_INPLACE=1 applies the patch to /repo instead (git apply / run / git checkout).
+P=$(readlink -f "$1"); PROP=$2; TIER=${3:-quick}
 cd /verif
-timeout 3000 bin/vcheck -tier "$TIER" "$PROP" 2>&1 | grep -v "^note: harness.*skipped" | cut -c1-420 | tail -12
+if [ -n "$TRYSEED_INPLACE" ]; then
+  cd /repo || exit 2
+  if ! git diff --quiet; then echo "/repo has local changes; refusing"; exit 2; fi
+  git apply "$P" || { echo "patch does not apply"; exit 2; }
+  cd /verif
+  timeout 3000 bin/vcheck -tier "$TIER" "$PROP" 2>&1 | grep -v "^note: harness.*skipped" | cut -c1-420 | tail -12
+  echo "rc=${PIPESTATUS[0]}"
+  git -C /repo checkout -- . && git -C /repo clean -fdq
+  exit 0
+fi
+WT=/tmp/seedwt-$$; OUT=/tmp/seedout-$$
+git -C /repo worktree add -q --detach $WT HEAD || exit 2
+trap 'git -C /repo worktree remove --force $WT >/dev/null 2>&1; rm -rf $OUT' EXIT
+git -C $WT apply "$P" || { echo "patch does not apply"; exit 2; }
+VERIF_REPO=$WT VERIF_SCRATCH_OUT=$OUT timeout 3000 bin/vcheck -tier "$TIER" "$PROP" 2>&1 | grep -v "^note: harness.*skipped" | cut -c1-420 | tail -12
 echo "rc=${PIPESTATUS[0]}"
-git -C /repo checkout -- . && git -C /repo clean -fdq
